@@ -67,6 +67,11 @@ def plan(tier, seed):
     for i in range(8 if tier == "quick" else 80):
         cases.append({"kind": "generic", "template": "int_utility", "index": 1 + i, "seed": [seed, 8, i], "cfg": "quick",
                       "jit_false": i % 4 == 0, "env": {"VERIF_X64": "1" if i % 4 else "0"}})
+    # the same models in other units: utility multiplied by 1e-30 ... 1e290 (finite, legitimate
+    # magnitudes at which tolerances relative to 1 + |x| see nothing unless the result is rescaled)
+    for i in range(12 if tier == "quick" else 150):
+        cases.append({"kind": "generic", "index": 2 * i, "seed": [seed, 10, i], "cfg": cfg, "unit": [1e-14, 1e290, 1e-30, 1e200, 1e-8, 1e100][i % 6],
+                      "force": {"poison": False}, "jit_false": False, "env": {"VERIF_X64": "1"}})
     # models without state variables (scalar value arrays)
     for i in range(6 if tier == "quick" else 60):
         cases.append({"kind": "generic", "template": "stateless", "index": 1 + 2 * i, "seed": [seed, 9, i], "cfg": "quick",
@@ -236,7 +241,10 @@ def run_case(case):
         if pipeline.run_sibling(desc, solve=True, counters=cnt, mode="swap_grid_kinds"):
             add("sibling_with_swapped_grid_kinds")
     try:
-        model = dsl.build_lcm_model(desc)
+        U = float(case.get("unit", 1.0))
+        model = dsl.build_lcm_model(desc if U == 1.0 else pipeline.scaled_utility_desc(desc, U))
+        if U != 1.0:
+            add("unit_scaled_models")
         if case.get("index", 1) % 6 == 1:
             pipeline.run_alias_sibling(model, counters=cnt)
         f, _ = pipeline.get_lcm_function(model, "solve", jit=True)
@@ -258,6 +266,8 @@ def run_case(case):
                 out = pipeline.to_np_list(f(p_obj))
             else:
                 out = pipeline.to_np_list(f(dsl.lcm_params(p)))
+            if U != 1.0:
+                out = [a_ / U for a_ in out]  # back to the reference's units
         except Exception as e:  # noqa: BLE001
             res["violations"].append({"key": pipeline.exc_key(e, "solve"), "what": pipeline.exc_text(e)})
             continue
@@ -306,7 +316,7 @@ def run_case(case):
                 s3 = ref.solve(p3)
                 if ref.supported(s3, allow_no_choice_last=allow_nc)[0]:
                     p_obj[fn][pn] = dsl.lcm_params(p3)[fn][pn]  # nothing else is touched
-                    out3 = pipeline.to_np_list(f(p_obj))
+                    out3 = [a_ / U for a_ in pipeline.to_np_list(f(p_obj))]
                     add("calls_with_one_nested_leaf_edited_in_place")
                     for t in range(min(len(out3), ref.T)):
                         exp = ref.to_lcm_layout(s3["V"][t], t)
